@@ -23,17 +23,17 @@ import (
 )
 
 type job struct {
-	Property string          `json:"property"`
-	Scenario string          `json:"scenario"`
-	Base     uint64          `json:"base"`
-	From     int             `json:"from"`
-	To       int             `json:"to"`
-	Out      string          `json:"out"`
-	Tier     string          `json:"tier"`
-	Replay   *replayRec      `json:"replay,omitempty"`
-	Params   map[string]int  `json:"params,omitempty"`
-	Deadline int64           `json:"deadline_unix,omitempty"`
-	WantPlan bool            `json:"want_plan,omitempty"`
+	Property string         `json:"property"`
+	Scenario string         `json:"scenario"`
+	Base     uint64         `json:"base"`
+	From     int            `json:"from"`
+	To       int            `json:"to"`
+	Out      string         `json:"out"`
+	Tier     string         `json:"tier"`
+	Replay   *replayRec     `json:"replay,omitempty"`
+	Params   map[string]int `json:"params,omitempty"`
+	Deadline int64          `json:"deadline_unix,omitempty"`
+	WantPlan bool           `json:"want_plan,omitempty"`
 }
 
 // replayRec is the replay file: plan + realised tape (+ what it produced).
@@ -49,6 +49,7 @@ type replayRec struct {
 	Tree      string          `json:"tree,omitempty"`
 	Trace     []string        `json:"trace,omitempty"`
 	History   []string        `json:"history,omitempty"`
+	Params    map[string]int  `json:"params,omitempty"`
 }
 
 type violation struct {
@@ -80,19 +81,19 @@ type runResult struct {
 
 // runCtx is what a scenario sees.
 type runCtx struct {
-	t        *testing.T
-	seed     uint64
-	rng      *zsim.Rng // workload stream
+	t         *testing.T
+	seed      uint64
+	rng       *zsim.Rng // workload stream
 	schedSeed uint64
-	replay   *replayRec
-	params   map[string]int
-	tier     string
-	viol     []violation
-	counters map[string]int
-	plan     any
-	sim      *zsim.Sim
-	outcome  string
-	state    string
+	replay    *replayRec
+	params    map[string]int
+	tier      string
+	viol      []violation
+	counters  map[string]int
+	plan      any
+	sim       *zsim.Sim
+	outcome   string
+	state     string
 }
 
 func (c *runCtx) violate(class, format string, a ...any) {
@@ -127,10 +128,13 @@ func (c *runCtx) simConfig() zsim.Config {
 	cfg := zsim.Config{SchedSeed: c.schedSeed, Strategy: r.Intn(3), StickyPermil: 500 + r.Intn(490),
 		ChangePoints: 1 + r.Intn(6), ExpectedSteps: 3000, StallMaxMs: 300}
 	if r.Intn(3) > 0 {
-		cfg.StallPermil = []int{2, 10, 40, 120}[r.Intn(4)]
+		cfg.StallPermil = []int{1, 4, 12, 30}[r.Intn(4)]
 	}
 	if c.replay != nil && c.replay.Tape != nil {
 		cfg.Replay = c.replay.Tape
+	}
+	if v := os.Getenv("VERIF_TRACECAP"); v != "" {
+		fmt.Sscan(v, &cfg.TraceCap)
 	}
 	return cfg
 }
